@@ -103,22 +103,24 @@ def check(out: Outcome, p: dict, xs: list, runners: list, enum: bool = False) ->
         if want is None:
             break
         got = [float(v) for v in np.exp(d.log_r[t, : t + 1])]
-        if any(math.isnan(v) for v in got) or abs(sum(got) - 1) > 1e-9:
+        # log-joints of magnitude L carry an absolute rounding error of about L * 2^-52, which becomes a relative error of the probabilities
+        tol = 1e-9 + 1e-14 * float(np.max(np.abs(d.log_message[np.isfinite(d.log_message)]))) if np.any(np.isfinite(d.log_message)) else 1e-9
+        if any(math.isnan(v) for v in got) or abs(sum(got) - 1) > tol:
             out.violation(f"BOCD: run-length row at step {t} sums to {sum(got)!r}", rep)
             break
-        if max(abs(a - b) for a, b in zip(got, want)) > 1e-9:
+        if max(abs(a - b) for a, b in zip(got, want)) > tol:
             out.violation(f"BOCD: run-length distribution at step {t} differs from the exact posterior (max abs diff {max(abs(a - b) for a, b in zip(got, want)):.3e})", rep)
             break
         if enum and t <= 9:
             cfgs = posterior_configs(fp, xs[:t])
-            if max(abs(a - b) for a, b in zip(got, cfgs)) > 1e-9:
+            if max(abs(a - b) for a, b in zip(got, cfgs)) > tol:
                 out.violation(f"BOCD: run-length distribution at step {t} differs from the sum over all changepoint configurations", rep)
                 break
         # predictions: mixture over the current posterior of the per-run-length posterior parameters
         pm = sum(w * params(fp, xs[t - rl: t])[0] for rl, w in enumerate(want))
         pv = sum(w * params(fp, xs[t - rl: t])[1] for rl, w in enumerate(want))
         sc = max([1.0] + [abs(v) for v in xs])
-        if abs(float(d.predicted_mean) - pm) > 1e-8 * sc or abs(float(d.predicted_var) - pv) > 1e-8 * sc:
+        if abs(float(d.predicted_mean) - pm) > (1e-8 + 10 * tol) * sc or abs(float(d.predicted_var) - pv) > (1e-8 + 10 * tol) * sc:
             out.violation(f"BOCD: predicted (mean, var)=({float(d.predicted_mean)!r}, {float(d.predicted_var)!r}) differ from the posterior-weighted mixtures ({pm!r}, {pv!r}) at step {t}", rep)
             break
         if t >= fp["min_num_instances"]:
